@@ -249,6 +249,16 @@ let adder_final _ _ _ =
   [Sum; Store (zint 7); Sum; Add (zint 5); Sum; SumAndReset; Sum; Add (zint 3); Reset; Sum; Add (zint 11); Sum]
 let adder_digest rets = String.concat "," (List.map show_aret rets)
 let opt_int opts k d = match List.assoc_opt k opts with Some v -> int_of_string v | None -> d
+(* pglen / pgcap / pgmask: start from a published table of pglen slots (capacity pgcap) whose slots in pgmask hold cells of value 0 *)
+let striped_init opts pre =
+  let s0 = ainit (List.map zint pre) in
+  let n = opt_int opts "pglen" 0 in
+  if n = 0 then s0 else begin
+    let cap = opt_int opts "pgcap" n and mask = opt_int opts "pgmask" 0 in
+    let next = ref 0 in
+    let slots = List.init cap (fun j -> if j < n && (mask lsr j) land 1 = 1 then (incr next; nat_of_int !next) else O) in
+    { s0 with a_table = Some (O, nat_of_int n); a_arrays = [slots]; a_cells = List.init !next (fun _ -> Z0) }
+  end
 let adder_comp mach sh0 = {
   mach; sh0; ts0 = (); parse_op = parse_aop; show_ret = show_aret;
   prefill = (fun _ _ -> []); final_prog = adder_final; final_digest = adder_digest; pc_of = Obj.repr; sh_digest = (fun _ -> ""); extra = (fun _ _ -> []); with_choices = (fun sh _ -> sh); cfg_digest = None;
@@ -363,9 +373,9 @@ let () =
              | "jdk" -> process_runs jdk_comp s ic
              | "mutex" -> process_runs mutex_comp s ic
              | "jdkadd" ->
-               process_runs (adder_comp (jdk_adder (zint (opt_int opts "maxcells" 2))) (fun _ pre -> ainit (List.map zint pre))) s ic
+               process_runs (adder_comp (jdk_adder (zint (opt_int opts "maxcells" 2))) striped_init) s ic
              | "jdkf" ->
-               process_runs (adder_comp (jdk_f64_adder (zint (opt_int opts "maxcells" 2))) (fun _ pre -> ainit (List.map zint pre))) s ic
+               process_runs (adder_comp (jdk_f64_adder (zint (opt_int opts "maxcells" 2))) striped_init) s ic
              | "rc" -> process_runs (adder_comp rc_adder (fun _ pre -> rinit (nat_of_int 128) (List.map zint pre))) s ic
              | "atomic" -> process_runs (adder_comp atomic_adder (fun _ _ -> Z0)) s ic
              | "atomicf" -> process_runs (adder_comp atomic_f64_adder (fun _ _ -> Z0)) s ic
